@@ -45,7 +45,7 @@ def _library_crash(msg, repo):
 def run(ctx):
     nb = ctx.pick(3, 4)
     sizes = "{0, 1, 5, 8191, 8192, 8193, 20000}"
-    path, _ = ctx.tlc_gen("data", "ByteRangeGen", consts={"NB": nb, "SIZES": sizes, "SL": ctx.pick(2, 3), "HL": ctx.pick(4, 5), "HSIZES": ctx.pick("{9000}", "{300, 9000}")}, workers=4, timeout=1200)
+    path, _ = ctx.tlc_gen("data", "ByteRangeGen", consts={"NB": nb, "SIZES": sizes, "SL": ctx.pick(2, 3), "HL": ctx.pick(4, 5), "HSIZES": "{9000}"}, workers=4, timeout=1200)
     if not path:
         raise Infra("ByteRangeGen wrote no vectors")
     try:
